@@ -183,8 +183,9 @@ theorem c06_flip_block_to_permit_monotone (cfg : Cfg) (before after : List Voter
     (Pointwise.single (R := fun v v' => Improves (toVote v) (toVote v')) (fun _ => Or.inl rfl)
       (improves_of_flip v hk) before after) hv hr).1
 
-/-- Raising the weight and/or the numeric confidence of one voter who casts a permit never turns PERMIT into
-    anything else. -/
+/-- Raising the weight and/or the reported confidence of one voter who casts a permit never turns PERMIT into
+    anything else - whatever numbers are reported (negative, above 1, beyond any bound: `_protein_to_vote` clamps a
+    reported confidence into [0, 1], so a larger report is never a smaller confidence). -/
 theorem c06_raise_permit_weight_or_confidence_monotone (cfg : Cfg) (before after : List Voter) (v : Voter)
     (w' : Rat) (hw : v.weight ≤ w') (conf' : Conf)
     (hc : conf' = v.conf ∨ ∃ c c', v.conf = .num c ∧ conf' = .num c' ∧ c ≤ c')
@@ -195,13 +196,13 @@ theorem c06_raise_permit_weight_or_confidence_monotone (cfg : Cfg) (before after
     (R := fun v v' => Improves (toVote v) (toVote v')) (fun x => Or.inl rfl) ?_ before after) hv hr).1
   have hvv : v.Valid := hv v (by simp)
   obtain ⟨hk, hnb⟩ := (casts_permit_iff v).mp hp
-  have hrel : v.weight * v.rel ≤ w' * v.rel := mul_le_mul_of_nonneg_right hw hvv.2.1
+  have hrel : v.weight * v.rel ≤ w' * v.rel := mul_le_mul_of_nonneg_right hw hvv.2
   right; right
   rcases hc with rfl | ⟨c, c', h1, rfl, hcc⟩
   · unfold toVote
     rcases hk with hk | hk <;> cases hcf : v.conf <;> simp_all [voteTypeOf]
   · unfold toVote
-    rcases hk with hk | hk <;> simp [hk, h1, voteTypeOf, hrel, hcc]
+    rcases hk with hk | hk <;> simp [hk, h1, voteTypeOf, hrel, clamp01_mono hcc]
 
 /-! ### Counts and idle voters -/
 
@@ -399,7 +400,7 @@ theorem c06_real_voters_permit_safe (s : Strategy) (minVoters budget n : Nat) (h
   refine (c06_unanimous_permit_is_permit _ _ hne ?_ (by rw [hlen]; exact hm) ?_ ?_ ?_).2
   · intro v hv; rw [hall v hv]; decide
   · intro v hv; rw [hall v hv]
-    exact ⟨by show (0 : Rat) ≤ 1; decide +kernel, by show (0 : Rat) ≤ 1; decide +kernel, by intro c h; cases h⟩
+    exact ⟨by show (0 : Rat) ≤ 1; decide +kernel, by show (0 : Rat) ≤ 1; decide +kernel⟩
   · have := default_attainable s (bioVoters .safe budget n).length
     unfold Attainable at this ⊢
     exact this
@@ -764,10 +765,10 @@ theorem c06_evaluated_outcomes_obey_the_clauses :
     simp only [hnr, Bool.false_eq_true, if_false, hres.1, hres.2]
     rfl
 
-/-- the table theorems are about something: 87 count configurations x 330 profiles, 525 classification rows on
-    the current tree; e.g. the first count row is MAJORITY, default threshold,
+/-- the table theorems are about something: the tables are not empty (87 count configurations x 330 profiles and
+    several hundred classification rows on the current tree); e.g. the first count row is MAJORITY, default threshold,
     `min_voters = 0`, and its digit for the profile (1 permit, 1 block) is 2 = BLOCK (a tie is not a majority) -/
-example : countTable.length = 87 ∧ classTable.length = 525 ∧ (profilesUpTo countMaxVoters).length = 330 ∧
+example : 50 ≤ countTable.length ∧ 500 ≤ classTable.length ∧ (profilesUpTo countMaxVoters).length = 330 ∧
     ((1, 1, 0, 0), 2) ∈ decodeCount (countTable.head!).2 := by decide +kernel
 
 end Operon.Quorum
